@@ -105,6 +105,12 @@ register("C11", module="histchecks", fn="case_c11", replay="replay_c11", binarie
          assumptions=["test commands log their execution to a file outside the repository; expected outcomes are computed from the RepoSpec (content == pass)"],
          components={"real": REAL_WHOLE, "stub": STUB_WHOLE})
 
+register("C35", module="histchecks", fn="case_c35", replay="replay_c35", binaries=("simplz",),
+         cases={"quick": 96, "thorough": 1200}, budget={"quick": 240, "thorough": 3000}, level="exploration",
+         rule="case = one genrule with known output bytes (single file / two files / directory; binary or not) and a `hashes` declaration drawn from: correct sha1, correct sha256, `algo:`-prefixed with and without space, one nibble off, wrong length, hash of another output, two values with one correct, upper-case; scenario drawn from: build + no-op build, failure then build again (and again after rm -rf plz-out), store in dir cache then corrupt the stored artifact (flip/truncate/swap, compressed or not) and restore, store then change the declaration to a wrong value and restore; oracle: exit 0 iff a declared value equals the output's hash under a configured algorithm, a failed verification stays failed, exit 0 after a restore only with outputs that hash correctly; distinct_nontrivial = distinct (shape, declaration kind, scenario, compress, binary, corruption) tuples",
+         assumptions=["single-file hashes are computed independently with hashlib; for two-file and directory outputs the true hash is read from the message plz prints for a deliberately wrong declaration", "upper-case declarations may be accepted or rejected, consistently"],
+         components={"real": REAL_WHOLE, "stub": STUB_WHOLE + ["stored-byte corruption applied between invocations by the orchestrator"]})
+
 
 def cmd_check(pid, tier):
     import framework
